@@ -1498,7 +1498,7 @@ func describeInstr(in ssa.Instruction) string {
 
 var _ = strings.Join
 
-var countedCallRe = regexp.MustCompile(`calls\(([A-Za-z0-9_]+)\)`)
+var countedCallRe = regexp.MustCompile(`calls(?:Here)?\(([A-Za-z0-9_]+)\)`)
 var resultOfRe = regexp.MustCompile(`resultOf\(([A-Za-z0-9_]+)\)`)
 
 // recordResult remembers the first result of the call just executed when the contract names it with
